@@ -1,0 +1,16 @@
+//go:build !verif
+
+package sys
+
+import "github.com/karino2/folang/pkg/frt"
+
+// Simulated-disk seam for deterministic simulation (see sys_verif.go).
+// Without the verif build tag the branches guarded by verifOn are compiled out.
+
+const verifOn = false
+
+func verifActive() bool { return false }
+
+func verifReadFile(file string) frt.Tuple2[string, bool] { return frt.NewTuple2("", false) }
+
+func verifWriteFile(file string, content string) bool { return false }
